@@ -6,4 +6,6 @@ D=$(cd "$(dirname "$0")" && pwd)
 cd "$D/cmd/vcheck"
 mkdir -p "$D/bin"
 go1.26.8 build -o "$D/bin/vcheck" .
+cd "$D/sim"
+go1.26.8 build -o "$D/bin/fakessh" ./cmd/fakessh
 "$D/bin/vcheck" warm
